@@ -109,6 +109,8 @@ type verifStream struct {
 	data []byte
 	pos  int
 	err  error
+	// chunk > 0: one Read returns at most chunk bytes (a body that arrives in several TCP segments)
+	chunk int
 }
 
 func (s *verifStream) Read(p []byte) (int, error) {
@@ -118,7 +120,11 @@ func (s *verifStream) Read(p []byte) (int, error) {
 		}
 		return 0, errEOFVerif
 	}
-	n := copy(p, s.data[s.pos:])
+	avail := s.data[s.pos:]
+	if s.chunk > 0 && len(avail) > s.chunk {
+		avail = avail[:s.chunk]
+	}
+	n := copy(p, avail)
 	s.pos += n
 	return n, nil
 }
